@@ -71,6 +71,25 @@ pub fn run(opts: &Opts) -> Run {
             }
         }
     }
+    // … and under OTHER repeat offsets than the trainer's 1/4/8 (the three little-endian words in front of the content): the
+    // reference compressor starts from them, so its frames use repeat codes that mean 100 / 300 / 500 bytes back
+    for k in 0..base_n.min(2) {
+        let (mut d, samples, id0, content) = dicts[k].clone();
+        if d.len() >= content.len() + 12 && content.len() > 600 {
+            let pos = d.len() - content.len() - 12;
+            for (j, o) in [100u32, 300, 500].iter().enumerate() {
+                d[pos + 4 * j..pos + 4 * j + 4].copy_from_slice(&o.to_le_bytes());
+            }
+            let nid = id0 ^ 0x0101_0101;
+            d[4..8].copy_from_slice(&nid.to_le_bytes());
+            if let Ok(p) = Dictionary::decode_dict(&d) {
+                if p.id == nid && p.offset_hist == [100, 300, 500] {
+                    dicts.push((d, samples, nid, content));
+                    run.stat("dictionaries_with_other_repeat_offsets", 1);
+                }
+            }
+        }
+    }
     run.stat("dictionaries", dicts.len() as u64);
     if dicts.is_empty() {
         run.notes.push("no dictionary could be trained".into());
@@ -162,6 +181,33 @@ pub fn run(opts: &Opts) -> Run {
             if ok {
                 let r = p.lines_text();
                 p.run.fail("C09", "missing_dict_accepted", format!("[{}] reset succeeded although the frame names dictionary {} which was not registered", label, id), r);
+            } else if i % 2 == 0 {
+                // the documented recovery on a source that cannot be rewound: register the dictionary now and force it
+                p.run.oracle_checks += 2;
+                if p.force_dict(0x7EAD_BEE5) {
+                    let r = p.lines_text();
+                    p.run.fail("C09", "force_dict_unknown_ok", format!("[{}] force_dict of an id that was never registered returned Ok", label), r);
+                }
+                p.add_dict(&dict);
+                p.truth = Some(Truth { original: data.clone(), frame_len: frame.len(), complete: true, has_checksum: checksum });
+                p.failed = false;
+                if p.force_dict(id) {
+                    let mut guard = 0;
+                    while !p.finished() && !p.is_failed() && guard < 2000 {
+                        p.blocks("blocks:1");
+                        p.collect();
+                        guard += 1;
+                    }
+                    p.collect();
+                    if p.delivered != data {
+                        let r = p.lines_text();
+                        p.run.fail("C09", "recovery_after_dict_not_provided", format!("[{}] reset (DictNotProvided) → add_dict → force_dict → decode_blocks delivered {} bytes, the original has {}", label, p.delivered.len(), data.len()), r);
+                    }
+                } else {
+                    let r = p.lines_text();
+                    p.run.fail("C09", "recovery_after_dict_not_provided", format!("[{}] force_dict({}) failed right after add_dict of that dictionary", label, id), r);
+                }
+                p.run.stat("recovery_after_dict_not_provided", 1);
             }
         }
     }
@@ -209,6 +255,71 @@ pub fn run(opts: &Opts) -> Run {
                 p.run.fail("C09", "offset_beyond_dict_accepted", format!("[{}] an offset reaching beyond dictionary plus output was accepted", label), r);
             }
             p.run.stat(if valid { "synthetic_valid" } else { "synthetic_rejected_by_libzstd" }, 1);
+        }
+        // the dictionary stops being reachable once the output has passed the window: window 1 KiB, two literal-only blocks of 1 KiB
+        // (2048 bytes out), then a block whose FIRST sequence (no literals in front) reaches 2048 + k bytes back, i.e. into
+        // the dictionary: invalid whatever the caller drained in between (block-wise with collect/read after every block,
+        // streaming reads, all at once)
+        for k in [1usize, 40, 300] {
+            if k > content.len() {
+                continue;
+            }
+            let offset = 2048 + k;
+            let ov = offset as u64 + 3;
+            let code = 63 - ov.leading_zeros() as u8;
+            let blk = Block::Comp(SeqBlock { lits: Lit::Raw(vec![]), ll_code: 0, ml_code: 5, of_code: code, seqs: vec![(0, 0, (ov - (1 << code)) as u32)], count_bytes: None, modes: None, repeat: [false; 3], trailer: vec![] });
+            // (the 2048 bytes come from literal-only COMPRESSED blocks: the decoder's output counter — its notion of "still within
+            // the window" — is not advanced by raw / RLE blocks, a leniency recorded in DESIGN §9 that no property forbids)
+            let litblock = |rng: &mut Rng| Block::Comp(SeqBlock { lits: Lit::Raw(rng.bytes(1024)), ll_code: 0, ml_code: 0, of_code: 0, seqs: vec![], count_bytes: None, modes: None, repeat: [false; 3], trailer: vec![] });
+            let mut f = Frame::simple(vec![litblock(&mut rng), litblock(&mut rng), blk], 0, false);
+            f.dict_id = Some((3, *id));
+            let (bytes, _) = synth::serialize(&f, content);
+            for driver in 0..3 {
+                let label = format!("synthetic dict#{}: window 1 KiB, 2048 bytes out, then offset {} (into the dictionary), driver {}", di, offset, driver);
+                let mut p = Prog::new(&mut run, &label);
+                p.add_dict(dict);
+                p.set_src(bytes.clone(), vec![], None);
+                match driver {
+                    0 => {
+                        if p.reset() {
+                            p.blocks("all");
+                        }
+                    }
+                    1 => {
+                        if p.reset() {
+                            let mut guard = 0;
+                            while !p.finished() && !p.is_failed() && guard < 10 {
+                                p.blocks("blocks:1");
+                                if guard % 2 == 0 {
+                                    p.collect();
+                                } else {
+                                    p.read(4096);
+                                }
+                                guard += 1;
+                            }
+                        }
+                    }
+                    _ => {
+                        if p.stream_init() {
+                            let mut guard = 0;
+                            while !p.is_failed() && guard < 10 {
+                                let before = p.delivered.len();
+                                p.sread(1024);
+                                if p.delivered.len() == before {
+                                    break;
+                                }
+                                guard += 1;
+                            }
+                        }
+                    }
+                }
+                p.run.oracle_checks += 1;
+                if !p.is_failed() {
+                    let r = p.lines_text();
+                    p.run.fail("C09", "dict_reach_after_window_accepted", format!("[{}] a match reaching into the dictionary after the output passed the window was accepted", label), r);
+                }
+                p.run.stat("dict_reach_after_window_frames", 1);
+            }
         }
     }
     run
